@@ -150,6 +150,42 @@ def base_of(body, op, depth=0):
     return l, tuple(path), ser, dty
 
 
+def base_alternatives(body, op, depth=0):
+    """Like base_of, but when the walk stops at a local assigned a tuple in several places (the arms of a `match` that binds
+    `(sk, Some(dk))` / `(sk, None)`), continues through each of them: [(local, path, serialize call, deref type)]."""
+    l, path, ser, dty = base_of(body, op)
+    if l is None or depth > 3 or body.is_param(l) or not path or not str(path[0]).isdigit():
+        return [(l, path, ser, dty)]
+    ds = [d for d in body.defs().get(l, []) if d.kind == 'assign' and d.via is None and not d.lhs['p']]
+    if len(ds) < 2 or not all(d.rv['k'] == 'agg' and d.rv.get('tuple') and int(path[0]) < len(d.rv['ops']) for d in ds):
+        return [(l, path, ser, dty)]
+    out = []
+    for d in ds:
+        o = d.rv['ops'][int(path[0])]
+        if not is_place(o):
+            continue
+        pl = op_place(o)
+        synth = []
+        for tok in path[1:]:
+            tok = str(tok)
+            if tok.startswith('@'):
+                synth.append({'dc': tok[1:], 'vi': -1})
+            else:
+                synth.append({'f': int(tok) if tok.isdigit() else -1, 'n': tok, 'o': '', 'ty': ''})
+        sub = {'cp': {'l': pl['l'], 'p': list(pl['p']) + synth}}
+        for (l2, p2, s2, d2) in base_alternatives(body, sub, depth + 1):
+            if l2 is None:
+                continue
+            # an arm that binds the other variant (`None` where `Some(x)` is followed) supplies nothing
+            if p2 and str(p2[0]).startswith('@') and not body.is_param(l2):
+                dd = [d for d in body.defs().get(l2, []) if d.kind == 'assign' and not d.lhs['p']]
+                if dd and all(d.rv['k'] == 'agg' and 'vi' in d.rv and '@' + d.rv['variant'] != p2[0] for d in dd):
+                    continue
+            out.append((l2, tuple(p2), ser or s2, dty or d2))
+    out.sort(key=lambda a: 0 if body.is_param(a[0]) else 1)
+    return out or [(l, path, ser, dty)]
+
+
 def hasher_id(F, body, op, depth=0):
     """(root body, constructor Call) of the hasher an `update` receiver refers to."""
     if depth > 5:
@@ -244,6 +280,33 @@ def chain_source(F, body, op, depth=0):
         CHAIN_FLAGS[0] |= {'partial'}
         return chain_source(F, body, c.args[0], depth + 1)
     return (l, path)
+
+
+def closure_elem_origin(F, cb, outs, depth=0):
+    """`elem(<origin of what is iterated>)` for the element parameter of a closure run by an iterator consumer; the iterated
+    collection is named in the enclosing function — recursively when the consumer itself sits in such a closure."""
+    if depth > 4:
+        return None
+    cs = [x for x in lib.closure_consumers(F, cb)]
+    if not cs:
+        return None
+    (pb, cc, _idx) = cs[0]
+    if not cc.is_(r'^std::iter::Iterator::') or not cc.args:
+        return None
+    src = chain_source(F, pb, cc.args[0])
+    sfx = chain_suffix()
+    if src is None:
+        return None
+    (sl, sp) = src
+    if pb.kind == 'Closure' and sl is not None and sl >= 2 and pb.is_param(sl):
+        outer = closure_elem_origin(F, pb, outs, depth + 1)
+        if outer is None:
+            return None
+        inner = outer + ''.join('.' + x for x in sp)
+    else:
+        org, rest = origin_of(F, pb, sl, sp, outs)
+        inner = org + ''.join('.' + x for x in rest)
+    return 'elem(%s)' % (inner + sfx)
 
 
 def iter_source(F, pb, consumer):
@@ -380,7 +443,8 @@ def _transcripts_local(F, root):
             h = hs[hid[1].b]
             u = Upd()
             u.call, u.body = c, body
-            l, path, ser, dty = base_of(body, c.args[1])
+            alts = base_alternatives(body, c.args[1])
+            l, path, ser, dty = alts[0]
             u.via = 'serialize' if ser is not None else None
             if ser is not None:
                 u.dtype = strip_ref(ser.self_ty or '')
@@ -413,20 +477,33 @@ def _transcripts_local(F, root):
                     u.rb = cc.b
                     if cc.is_(r'^std::iter::Iterator::'):
                         u.kind = 'iter'
-                        src, elem = iter_source(F, pb, cc)
-                        sfx = chain_suffix()
-                        if isinstance(src, tuple):
-                            org, rest = origin_of(F, pb, src[0], src[1], outs)
-                            u.origin = org + (''.join('.' + x for x in rest) if rest else '') + sfx
-                        else:
-                            u.origin = src
-                        # projection of the element used
                         if l is not None and l >= 2 and body.is_param(l):
+                            # the element handed to the closure: named exactly like the variable of the equivalent `for` loop,
+                            # `elem(<what is iterated>)<.path>`, through nested closures as through nested loops
+                            eo = closure_elem_origin(F, body, outs)
+                            if eo is not None:
+                                u.origin = eo + ''.join('.' + x for x in path)
+                            else:
+                                src, elem = iter_source(F, pb, cc)
+                                sfx = chain_suffix()
+                                if isinstance(src, tuple):
+                                    org, rest = origin_of(F, pb, src[0], src[1], outs)
+                                    u.origin = 'elem(%s)' % (org + (''.join('.' + x for x in rest) if rest else '') + sfx)
+                                else:
+                                    u.origin = src
                             u.proj = '.'.join(x for x in path if not x.startswith('@')) or None
-                        elif l == 1:
-                            org, rest = origin_of(F, body, l, path, outs)
-                            u.origin = org
-                            u.kind = 'iter-const'
+                        else:
+                            src, elem = iter_source(F, pb, cc)
+                            sfx = chain_suffix()
+                            if isinstance(src, tuple):
+                                org, rest = origin_of(F, pb, src[0], src[1], outs)
+                                u.origin = org + (''.join('.' + x for x in rest) if rest else '') + sfx
+                            else:
+                                u.origin = src
+                            if l == 1:
+                                org, rest = origin_of(F, body, l, path, outs)
+                                u.origin = org
+                                u.kind = 'iter-const'
                     else:
                         u.kind = 'one'
                         org, rest = origin_of(F, body, l, path, outs)
@@ -435,6 +512,18 @@ def _transcripts_local(F, root):
             u.root_ty, u.root_path = LAST_ROOT[0]
             u.root_local = LAST_LOCAL[0][1] if LAST_LOCAL[0][0] is root else None
             u.inl = None
+            if len(alts) > 1 and u.origin:
+                # one update standing for several sources (one per arm of the match that bound the value): name them all
+                names = []
+                pre = u.origin
+                first_sfx = ''.join('.' + x for x in path)
+                stem = pre[:-len(first_sfx)] if first_sfx and pre.endswith(first_sfx) else None
+                if stem is not None:
+                    for (_l2, p2, _s2, _d2) in alts:
+                        nm = stem + ''.join('.' + x for x in p2)
+                        if nm not in names:
+                            names.append(nm)
+                    u.origin = '|'.join(names)
             h.events.append(u)
     # updates performed by a crate-local helper that receives `&mut hasher` (absorb_xxx(&mut kmac, item))
     for c in root.calls():
